@@ -18,23 +18,24 @@ OUT = os.environ.get("VERIF_OUT", ROOT)
 # ---------------------------------------------------------------------------------------------------------------
 # per property: list of batches (engine, variant, profile, quick runs, thorough runs)
 PLANS = {
-    "C01": [("runsim", "asan", "lifecycle", 40000, 1200000), ("runsim", "noexc", "lifecycle", 30000, 800000),
-            ("runsim", "asan", "pointers", 8000, 200000), ("runsim", "asan", "leaks", 8000, 200000), ("runsim", "asan", "selection", 8000, 200000)],
-    "C02": [("runsim", "asan", "selection", 60000, 2000000), ("runsim", "asan", "lifecycle", 10000, 300000), ("runsim", "noexc", "selection", 10000, 300000)],
-    "C04": [("heapsim", "asan", "accounting", 30000, 1200000), ("heapsim", "noguard", "accounting", 15000, 500000), ("heapsim", "asan", "misuse", 10000, 200000), ("heapsim", "asan", "soundness", 10000, 200000)],
-    "C05": [("heapsim", "asan", "soundness", 40000, 1500000), ("heapsim", "noguard", "soundness", 20000, 700000), ("heapsim", "asan", "accounting", 8000, 200000), ("heapsim", "asan", "oom", 8000, 200000)],
-    "C06": [("heapsim", "asan", "misuse", 50000, 2000000), ("heapsim", "noguard", "misuse", 15000, 500000), ("heapsim", "asan", "accounting", 8000, 200000)],
-    "C07": [("runsim", "asan", "leaks", 50000, 1500000), ("runsim", "noexc", "leaks", 15000, 500000)],
-    "C08": [("mocksim", "asan", "verdict", 24000, 800000), ("mocksim", "asan", "cfront", 4000, 100000)],
-    "C10": [("thrsim", "tsi", "threads", 6000, 400000), ("thrsim", "tsi", "locked_misuse", 3000, 150000)],
-    "C11": [("runsim", "asan", "process_syn", 60000, 2000000), ("runsim", "plain", "process", 8000, 300000), ("runsim", "noexc", "process_syn", 15000, 400000)],
-    "C14": [("heapsim", "asan", "diagnostics", 30000, 1000000), ("heapsim", "noguard", "diagnostics", 10000, 300000), ("heapsim", "asan", "accounting", 8000, 200000), ("runsim", "asan", "leaks", 10000, 300000)],
-    "C15": [("heapsim", "asan", "oom", 50000, 2000000), ("heapsim", "noguard", "oom", 15000, 500000)],
-    "C16": [("runsim", "asan", "junit", 30000, 800000), ("runsim", "noexc", "junit", 8000, 200000)],
-    "C17": [("runsim", "asan", "pointers", 40000, 1500000), ("runsim", "noexc", "pointers", 15000, 500000), ("runsim", "asan", "lifecycle", 10000, 300000)],
-    "C18": [("cachesim", "asan", "cache", 200000, 6000000)],
-    "C19": [("mocksim", "asan", "cfront", 24000, 800000)],
-    "C20": [("runsim", "asan", "teamcity", 40000, 1200000), ("runsim", "noexc", "teamcity", 8000, 200000)],
+    "C01": [("runsim", "asan", "lifecycle", 60000, 1200000), ("runsim", "noexc", "lifecycle", 60000, 800000),
+            ("runsim", "asan", "pointers", 10000, 200000), ("runsim", "asan", "leaks", 10000, 200000), ("runsim", "asan", "selection", 10000, 200000)],
+    "C02": [("runsim", "asan", "selection", 160000, 2000000), ("runsim", "asan", "lifecycle", 20000, 300000), ("runsim", "noexc", "selection", 40000, 300000)],
+    # (engine, variant, profile, quick runs, thorough runs[, properties whose oracles, in this batch, are also violations of the checked property])
+    "C04": [("runsim", "asan", "leaks", 30000, 300000, ("C07",)), ("heapsim", "asan", "accounting", 80000, 1200000), ("heapsim", "noguard", "accounting", 40000, 500000), ("heapsim", "asan", "misuse", 20000, 200000), ("heapsim", "asan", "soundness", 20000, 200000)],
+    "C05": [("heapsim", "asan", "soundness", 120000, 1500000), ("heapsim", "noguard", "soundness", 60000, 700000), ("heapsim", "asan", "accounting", 16000, 200000), ("heapsim", "asan", "oom", 16000, 200000)],
+    "C06": [("heapsim", "asan", "misuse", 300000, 3000000), ("heapsim", "noguard", "misuse", 100000, 1000000), ("heapsim", "asan", "accounting", 20000, 200000)],
+    "C07": [("runsim", "asan", "leaks", 80000, 1500000), ("runsim", "noexc", "leaks", 40000, 500000)],
+    "C08": [("mocksim", "asan", "verdict", 40000, 800000), ("mocksim", "asan", "cfront", 6000, 100000)],
+    "C10": [("thrsim", "tsi", "threads", 16000, 400000), ("thrsim", "tsi", "locked_misuse", 16000, 300000)],
+    "C11": [("runsim", "asan", "process_syn", 160000, 2000000), ("runsim", "plain", "process", 30000, 400000), ("runsim", "noexc", "process_syn", 40000, 400000)],
+    "C14": [("heapsim", "asan", "diagnostics", 50000, 1000000), ("heapsim", "noguard", "diagnostics", 20000, 300000), ("heapsim", "asan", "accounting", 10000, 200000), ("runsim", "asan", "leaks", 16000, 300000)],
+    "C15": [("heapsim", "asan", "oom", 600000, 6000000), ("heapsim", "noguard", "oom", 200000, 2000000)],
+    "C16": [("runsim", "asan", "junit", 60000, 800000), ("runsim", "noexc", "junit", 30000, 200000)],
+    "C17": [("runsim", "asan", "pointers", 80000, 1500000), ("runsim", "noexc", "pointers", 40000, 500000), ("runsim", "asan", "lifecycle", 20000, 300000)],
+    "C18": [("cachesim", "asan", "cache", 1500000, 12000000)],
+    "C19": [("mocksim", "asan", "cfront", 48000, 800000)],
+    "C20": [("runsim", "asan", "teamcity", 100000, 1200000), ("runsim", "noexc", "teamcity", 40000, 200000)],
 }
 # properties whose statement contains a memory-safety / no-crash / no-hang clause: a crash class is attributed to them
 CRASH_CLAUSE = {"C01", "C05", "C10", "C11", "C14", "C17", "C18"}
@@ -326,7 +327,7 @@ def check(prop, tier):
     tier = os.environ.get("VERIF_TIER", tier)
     plan = PLANS[prop]
     t_start = time.time()
-    targets = sorted({"build/%s/%s" % (v, e) for (e, v, _, _, _) in plan})
+    targets = sorted({"build/%s/%s" % (b[1], b[0]) for b in plan})
     if not build(targets):
         return 2
     evid = {"property_id": prop, "tier": tier, "seed": seed, "level": "exploration", "coverage": {}, "assumptions": [], "wall_s": 0.0, "violations": 0}
@@ -334,12 +335,15 @@ def check(prop, tier):
     violations = []; known_seen = {}; harness_problems = []
     thorough_cap = float(os.environ.get("VERIF_THOROUGH_CAP_S", "900"))
     replay_dir = os.path.join(OUT, "replays"); os.makedirs(replay_dir, exist_ok=True)
-    for bi, (engine, variant, profile, qn, tn) in enumerate(plan):
+    for bi, batch in enumerate(plan):
+        engine, variant, profile, qn, tn = batch[:5]
+        implied = tuple(batch[5]) if len(batch) > 5 else ()
+        propArg = ",".join((prop,) + implied)
         runs = qn if tier == "quick" else tn
         cap = 0 if tier == "quick" else thorough_cap / max(1, len(plan))
         outdir = os.path.join(OUT, "work", prop, tier, "%s_%s_%s" % (engine, variant, profile))
         t0 = time.time()
-        res = run_batch(prop, engine, variant, profile, runs, seed, outdir, cap)
+        res = run_batch(propArg, engine, variant, profile, runs, seed, outdir, cap)
         wall = time.time() - t0
         r = sum(s["runs"] for s in res["stats"]); total_runs += r
         distinct += res["distinct"]
@@ -377,9 +381,9 @@ def check(prop, tier):
                 continue
             dst = os.path.join(replay_dir, "%s_%s_%s_%s_s%d_i%d_%s.json" % (prop, engine, variant, profile, seed, v.get("index", 0), hashlib.sha1(cls.encode()).hexdigest()[:6]))
             d = json.load(open(v["replay"]))
-            d["property"] = prop; d["class"] = cls; d["oracle"] = v.get("oracle"); d["detail"] = v.get("detail"); d["found_by"] = {"seed": seed, "index": v.get("index"), "tier": tier}
+            d["property"] = prop; d["accept_properties"] = propArg; d["class"] = cls; d["oracle"] = v.get("oracle"); d["detail"] = v.get("detail"); d["found_by"] = {"seed": seed, "index": v.get("index"), "tier": tier}
             json.dump(d, open(dst, "w"))
-            failed, classes, crash, out = fresh_replay(dst, prop)
+            failed, classes, crash, out = fresh_replay(dst, propArg)
             if not failed or not any(viol_class(c) == cls for c in classes):
                 harness_problems.append("minimised replay %s does not fail the same way in a fresh process" % dst)
                 continue
@@ -442,14 +446,15 @@ def check(prop, tier):
 def replay(path):
     d = json.load(open(path))
     prop = d.get("property", "")
+    accept = d.get("accept_properties", prop)
     if not build(["build/%s/%s" % (d.get("variant") or "asan", d["engine"])]):
         return 2
-    failed, classes, crash, out = fresh_replay(path, prop)
+    failed, classes, crash, out = fresh_replay(path, accept)
     log(out)
     want = d.get("class")
     if crash:
         log("VIOLATION property=%s replay=%s" % (prop, path)); return 1
-    hit = [c for c in classes if (not prop or c.get("prop") == prop)]
+    hit = [c for c in classes if (not prop or c.get("prop") in accept.split(","))]
     if hit:
         same = any(viol_class(c) == want for c in hit) if want else True
         log("replayed: %s%s" % (viol_class(hit[0]), "" if same else " (class differs from the recorded one: %s)" % want))
@@ -483,7 +488,8 @@ def determinism_all(n):
     """every engine profile used by some check"""
     seen = set(); rc = 0
     for plan in PLANS.values():
-        for (e, v, pr, _, _) in plan:
+        for b in plan:
+            e, v, pr = b[:3]
             if (e, v, pr) in seen:
                 continue
             seen.add((e, v, pr))
@@ -495,7 +501,7 @@ def main():
     if not a:
         print(__doc__); return 2
     if a[0] == "build":
-        targets = sorted({"build/%s/%s" % (v, e) for plan in PLANS.values() for (e, v, _, _, _) in plan})
+        targets = sorted({"build/%s/%s" % (b[1], b[0]) for plan in PLANS.values() for b in plan})
         return 0 if build(targets) else 2
     if a[0] == "check":
         tier = "quick"
